@@ -80,7 +80,7 @@ def run(chk):
                 "op tets on 7 families, 1D/2D/3D, periodic or not, random masks: every recorded tetrahedron has the generator as apex; signed moments of degree 0,1,2 of the recorded decomposition equal those of the exact cell; "
                 "base triangles of every face lie in its plane and their signed areas (documented sign) sum to the exact face area; datum 1000+i reaches exactly cell i (cell, face, sym face variants, under masks); finalize called once; "
                 "with stored faces (3D): same moments; non-trivial = cell with >= 1 neighbour face")
-    chk.lean(['MVoro.Props.C14', 'MVoro.Proofs.Surface'], [], [])
+    chk.lean(['MVoro.Props.C14', 'MVoro.Proofs.Surface'], ['MVoro.Obl.Integrals'], ['Integrals', 'Geom'])
     binary, blog = build_downstream()
     if binary is None:
         errs = [l for l in blog.splitlines() if l.startswith('error')]
